@@ -1190,7 +1190,7 @@ MUTANTS = [
     Mutant('check-scope-args-swapped', EXPR, "        self.check_scope(variables, functions, suffixes)\n\n        # metadata_dict",
            "        self.check_scope(functions, variables, suffixes)\n\n        # metadata_dict", 'D5'),
     Mutant('bad-vars-inverted', EXPR, "bad_vars = set(var for var in self.variables_used if var not in variables)", "bad_vars = set(var for var in self.variables_used if var in variables)", 'D5'),
-    Mutant('bad-vars-never-raise', EXPR, "            raise UndefinedVariable(message.format(varnames))\n", "            pass\n", 'D5'),
+    Mutant('bad-vars-never-raise', EXPR, "            raise UndefinedVariable(message)\n", "            pass\n", 'D5'),
     Mutant('bad-funcs-looked-up-in-variables', EXPR, "bad_funcs = set(func for func in self.functions_used if func not in functions)",
            "bad_funcs = set(func for func in self.functions_used if func not in variables)", 'D5'),
     Mutant('evaluator-ignores-variables', EXPR, "    result, eval_metadata = parsed.eval(variables, functions, suffixes, allow_inf=allow_inf)",
